@@ -1,6 +1,6 @@
 import Xsm.Model.Runtime
 /-
-Concrete machines for the counter-example theorems of C08 / C09 (findings F6, F7, F55).
+Concrete machines for the counter-example theorems of C08 / C09 (findings F6, F7, F55, F72-F74).
 -/
 namespace XSM.RTEx
 open XSM
@@ -53,5 +53,57 @@ def mAlts : Machine :=
        ("u", .mk (mkSd [] []) [])] }
 
 def runAlts : RT := runRT .async mAlts exU exR [] 300 100
+
+/-! F72 / F73 / F74: `stop()` arriving INSIDE a macrostep (the interpreter's own task is suspended in it) -/
+
+def mk (a : String) : ActionRef := { type := a }
+
+/-- F73 (async, no slow action): `s` (entry / exit markers) times out to `u` after 300 ms; `R` re-enters `s`. Since `s` owns a
+    timer, the exit of `s` awaits its cancellation (`cancel_by_owner`): a suspension window inside the macrostep -/
+def mStop : Machine :=
+  { id := "m", maxIterations := 1000, customIds := [],
+    root := .mk rootSd
+      [("s", .mk { mkSd [("R", [tr 0 "R" (some "s") ["t:s:R"] true])] [("300", [tr 1 "after.300.m.s" (some "u") ["af:s:0"]])] with
+                   entry := [mk "en:s"], exit := [mk "ex:s"] } []),
+       ("u", .mk (mkSd [] []) [])] }
+
+/-- `R` and `stop` in the same instant t = 50 (the input first): the stop lands inside the `await` of the exit of `s`.
+    Horizon 200: before the re-armed timer (due at 350) expires -/
+def runStopInside : RT := runRT .async mStop exU exR [(50, .send "R"), (50, .stop)] 200 100
+/-- the same run up to t = 400: the timer armed behind the stop has expired meanwhile (its `send` is refused) -/
+def runStopInsideLate : RT := runRT .async mStop exU exR [(50, .send "R"), (50, .stop)] 400 100
+/-- the same `stop` one millisecond later, BETWEEN macrosteps: nothing is left -/
+def runStopBetween : RT := runRT .async mStop exU exR [(50, .send "R"), (51, .stop)] 200 100
+
+/-- F74 (async): `s` owns a (long) timer and leaves for `b` on `GO`; `b` invokes the 100 ms coroutine service `svc` -/
+def mStopSvc : Machine :=
+  { id := "m", maxIterations := 1000, customIds := [],
+    root := .mk rootSd
+      [("s", .mk { mkSd [("GO", [tr 0 "GO" (some "b") ["t:s:GO"]])] [("5000", [tr 1 "after.5000.m.s" none ["af:s:0"]])] with
+                   entry := [mk "en:s"], exit := [mk "ex:s"] } []),
+       ("b", .mk { mkSd [] [] [{ id := "i", src := some "svc", onDone := [tr 2 "done.invoke.i" (some "s") ["od:b:0"]], onError := [] }] with
+                   entry := [mk "en:b"], exit := [mk "ex:b"] } [])] }
+
+/-- `GO` and `stop` in the same instant t = 50: the stop lands inside the `await` of the exit of `s` -/
+def runStopSvc : RT := runRT .async mStopSvc exU exR [(50, .send "GO"), (50, .stop)] 400 100
+
+/-- F73s / F74s (sync): `a` --GO--> `b`; the exit of `a` begins with the blocking action `slow` (50 ms); `b` declares a
+    300 ms timer and invokes the plain service `psvc` -/
+def exUs : UEnv := { g := fun _ _ _ => .missing, a := fun _ c _ => .ok c }
+def exRs : REnv :=
+  { delays := fun _ => none
+    svc := fun n => if n = "psvc" then some { coro := false, dur := 0, ok := true } else none
+    dur := fun n => if n = "slow" then 50 else 0 }
+def rootSdA : StateDef := { mkSd [] [] with kind := .compound, initial := some "a" }
+def mStopSync : Machine :=
+  { id := "m", maxIterations := 1000, customIds := [],
+    root := .mk rootSdA
+      [("a", .mk { mkSd [("GO", [tr 0 "GO" (some "b") ["t:a:GO"]])] [] with entry := [mk "en:a"], exit := [mk "slow", mk "ex:a"] } []),
+       ("b", .mk { mkSd [] [("300", [tr 1 "after.300.m.b" (some "a") ["af:b:0"]])]
+                     [{ id := "ib0", src := some "psvc", onDone := [tr 2 "done.invoke.ib0" none ["od:b:0"]], onError := [] }] with
+                   entry := [mk "en:b"], exit := [mk "ex:b"] } [])] }
+
+/-- `GO` at t = 100 (the exit of `a` blocks until 150), `stop` from another thread at t = 120 -/
+def runStopSync : RT := runRT .sync mStopSync exUs exRs [(100, .send "GO"), (120, .stop)] 300 100
 
 end XSM.RTEx
